@@ -385,7 +385,8 @@ def run(tier, seed):
                       "Tree/CompatSpec.v ValidIn as the meaning of `valid in version v` (top-down types as in parser.rs)"],
         checker_cmd="python3 tools/coqmake.py Properties/C17.vo && Print Assumptions per theorem; ocaml/build_tree.sh; avh tree run / avm_tree / avh compat sweep",
         assumptions=["Weak references always upgrade (the harness keeps every handle and model)",
-                     "C17_exact is stated outside the classes K_recalc / K_mixup / K_skip; C17_exact_histories_real: on the regenerated real "
+                     "C17_exact_fixed is stated outside the classes K_recalc / K_skip (K_mixup - mask read from the stored type with the recalculated "
+                     "type's indices, a panic on the real library - was fixed in /repo 7fd71e4 and is no side condition any more); C17_exact_histories_real: on the regenerated real "
                      "tables (PairOK and MaskOK by sweep) the check is exact after EVERY history of the 26-operation alphabet from the empty "
                      "world whose moves / copies satisfy attach_ok (the destination lists the element's name with the element's stored "
                      "datatype) - no hypothesis about the world; extended alphabet op2 (sort, set_version, check, serialize, "
@@ -393,7 +394,7 @@ def run(tier, seed):
                      "(model-parented nodes carry the root type), loaded edges typed by Xml/LoadRecords `linked`, merges by PairOK; loads are "
                      "taken outside C03's Known_load (Core for the loader); a move / copy violating attach_ok really builds a "
                      "document that neither loads strictly in its own version nor is flagged (avh compat xattach, findings/"
-                     "C17-attach-keeps-stored-type.json; C07's subject); C17_exact_refuted_* / C17_mixup_panics show the classes on a toy table set",
+                     "C17-attach-keeps-stored-type.json; C07's subject); C17_exact_refuted_* show the two remaining classes on a toy table set, C17_mixup_state_fixed is the former panic state",
                      "link to strict loading: C17_valid_loads / C17_clean_loads / C17_set_version_loads use the C01 theorems for the v-typed "
                      "per-file projection under the DECIDABLE side condition rootrestb; C17_ser_heap_is_projection / C17_file_text_loads: the "
                      "heap serializer writes exactly the text of that projection under SerCond (same content mode of stored and v-type, no "
